@@ -119,7 +119,7 @@ func runC14(c *Ctx) {
 	gEdFull, gC25519 := mkEdFull(c), mkCurve25519(c)
 	dense := func(maxK, longFrom int) c14WindowPlan { return c14WindowPlan{maxK: maxK, longFrom: longFrom, keep: 1} }
 	sparse := func(maxK int) c14WindowPlan {
-		return c14WindowPlan{maxK: maxK, longFrom: 32, fullAt: []int{8, 16}, keep: 3}
+		return c14WindowPlan{maxK: maxK, longFrom: 32, fullAt: []int{8, 16}, keep: 4}
 	}
 	if c.Thorough() {
 		c14RunParallel(c, 4,
@@ -137,14 +137,14 @@ func runC14(c *Ctx) {
 			func(s *Ctx) {
 				runWindow(s, gK, 1, c14WindowPlan{maxK: 16, longFrom: 1 << 12, keep: 1, hugeFrom: 1<<14 - 1})
 			},
-			func(s *Ctx) { runWindow(s, gEd, 7, sparse(13)) },
-			func(s *Ctx) { runWindow(s, gP, 2, sparse(12)) },
-			func(s *Ctx) { runWindow(s, gPa, 3, sparse(12)) },
-			func(s *Ctx) { runWindow(s, gVe, 4, sparse(12)) },
-			func(s *Ctx) { runWindow(s, gG1, 5, sparse(12)) },
+			func(s *Ctx) { runWindow(s, gEd, 7, sparse(12)) },
+			func(s *Ctx) { runWindow(s, gP, 2, sparse(11)) },
+			func(s *Ctx) { runWindow(s, gPa, 3, sparse(11)) },
+			func(s *Ctx) { runWindow(s, gVe, 4, sparse(11)) },
+			func(s *Ctx) { runWindow(s, gG1, 5, sparse(11)) },
 			func(s *Ctx) { runWindow(s, gG2, 6, sparse(11)) },
 			func(s *Ctx) { runWindow(s, gEdFull, 8, sparse(11)) },
-			func(s *Ctx) { runWindow(s, gC25519, 9, c14WindowPlan{keep: 3}) })
+			func(s *Ctx) { runWindow(s, gC25519, 9, c14WindowPlan{keep: 4}) })
 	}
 
 	// ---- raw projective / extended formulas at the impl level
